@@ -145,6 +145,10 @@ Definition obs_eq_res (r : option (bool * err)) : list Z :=
 Definition obs_opt_puri (r : option puri) : list Z :=
   match r with None => [(-1)%Z] | Some u => 1%Z :: obs_puri u end.
 
+(* GetCallIDSig: ContainsIP4 is the model's; what ContainsIP6 answered (when no IPv4 address is found) is supplied *)
+Definition callid_sig_ip (has6 : bool) (o6 l6 : N) (cid : list byte) : N * N :=
+  let '(h4, o4, l4, _) := contains_ip4 cid in
+  if h4 then callid_sig_at true o4 l4 cid else callid_sig_at has6 o6 l6 cid.
 (* parse a message (one call) and compute its signature with the three string
    signatures given as numbers *)
 Definition run_msgsig (nums : list Z) (buf : list byte) : list Z :=
@@ -155,10 +159,10 @@ Definition run_msgsig (nums : list Z) (buf : list byte) : list Z :=
   let m0 := msg_init 0 (repeat hdr0 (cap_of defaultHdrs hcap)) (repeat pfrom0 (cap_of defaultContacts ccap)) in
   match parse_sipmsg flags buf offs m0 with
   | Done o e m =>
-    (* the string signatures are computed by the model (StrSig.v); only the place of the IP address inside the
-       Call-ID, found by ContainsIP4 / ContainsIP6, is supplied (nums 8..10) *)
+    (* the string signatures are computed by the model (StrSig.v); only the place of an IPv6 address inside the
+       Call-ID, found by ContainsIP6 when ContainsIP4 (modelled) finds nothing, is taken from nums 8..10 *)
     let has := negb (nthz nums 8 =? 0)%Z in let io := Z.to_N (nthz nums 9) in let il := Z.to_N (nthz nums 10) in
-    let r := get_msg_sig (fun cid => callid_sig_at has io il cid) str_sig0 viabr_sig0 m buf in
+    let r := get_msg_sig (fun cid => callid_sig_ip has io il cid) str_sig0 viabr_sig0 m buf in
     [n2z o; n2z (err_code e)] ++ obs_msgsig r
     ++ (match r with Some (s, _) => map n2z (sig_string s) | None => [] end)
   | Panic => [zPANIC]
@@ -211,6 +215,6 @@ Definition entry (kind : N) (nums : list Z) (strs : list (list byte)) : list Z :
   | 120 => run_msgsig nums s0
   | 121 => [n2z (str_sig0 s0)]
   | 122 => match viabr_sig_len s0 with Some (sg, l) => [n2z sg; n2z l] | None => [zPANIC] end
-  | 123 => let '(sg, l) := callid_sig_at (negb (nthz nums 0 =? 0)%Z) (Z.to_N (nthz nums 1)) (Z.to_N (nthz nums 2)) s0 in [n2z sg; n2z l]
+  | 123 => let '(sg, l) := callid_sig_ip (negb (nthz nums 0 =? 0)%Z) (Z.to_N (nthz nums 1)) (Z.to_N (nthz nums 2)) s0 in [n2z sg; n2z l]
   | _ => []
   end.
